@@ -181,6 +181,25 @@ def releaseFormsWiredCorrectly : Bool :=
 
 def overloadsWiredCorrectly : Bool := acquireFormsWiredCorrectly && releaseFormsWiredCorrectly
 
+/-- the family a member / getter / setter name of the memory-report plugin belongs to -/
+def wiringFamily : String → Option Family
+  | "mallocAllocator" | "getCurrentMallocAllocator" | "setCurrentMallocAllocator" => some .malloc
+  | "newAllocator" | "getCurrentNewAllocator" | "setCurrentNewAllocator" => some .new
+  | "newArrayAllocator" | "getCurrentNewArrayAllocator" | "setCurrentNewArrayAllocator" => some .newArray
+  | _ => none
+
+/-- every install statement pair and every remove statement of `MemoryReporterPlugin` stays inside one family, and the
+    three families are each handled once -/
+def reportWiringOk : Bool :=
+  let one (e : String × String × String × String) : Option Family :=
+    match wiringFamily e.1, wiringFamily e.2.1, wiringFamily e.2.2.1, wiringFamily e.2.2.2 with
+    | some a, some b, some c, some d => if a == b && b == c && c == d then some a else none
+    | _, _, _, _ => none
+  let fams (l : List (String × String × String × String)) : List (Option Family) := l.map one
+  let ok (l : List (Option Family)) : Bool :=
+    l.length == 3 && l.contains (some .malloc) && l.contains (some .new) && l.contains (some .newArray)
+  ok (fams Gen.LeakDetector.reportInstall) && ok (fams Gen.LeakDetector.reportRemove)
+
 /-- number of allocations / reallocations that returned memory to the caller -/
 def successes : List Ev → Nat
   | [] => 0
